@@ -119,6 +119,16 @@ Theorem C02_monitor_every_history : forall is_space ops w,
 Proof. exact run_gated_ok. Qed.
 Print Assumptions C02_monitor_every_history.
 
+(** a handshake that runs alone returns without waiting: no goroutine of it ever sits in one of
+    the three waiting selects of handshake.go (it could only be waiting for a channel it registered
+    itself; the code recognises its own load and obtain channels [fixes 29c65de, a768045]).  This is
+    the second clause of the monitor [Check.replay] evaluates on the implementation ([no_selfwait]);
+    several handshakes at once are the subject of C13. *)
+Theorem C02_lone_handshake_never_waits : forall is_space w h own kids res w',
+  handshake is_space w h = (own, kids, res, w') -> no_selfwait (own :: kids) = true.
+Proof. exact handshake_no_selfwait. Qed.
+Print Assumptions C02_lone_handshake_never_waits.
+
 (** the literals of handshake.go that [gate]'s call sites, [almost_full] and the miss path of
     [get_cert] were modelled after are the ones in the source today (read by the translator on every
     run; a change breaks this proof) *)
